@@ -14,6 +14,7 @@ const MON_W: &str = "write_whole_frame";
 fn summarize(r: &Result<Frame<'_>, FrameError>) -> String {
     match r {
         Ok(f) => format!("Ok({:04X}:{:02X}:{})", f.address().0, f.message_type().0, hex(f.data())),
+        Err(FrameError::Io { source }) if !crate::doubles::payload_intact(source) => format!("Io({:?}) that no longer carries what the stream put into it: {:?}", source.kind(), source.get_ref().map(|x| x.to_string())),
         Err(FrameError::Io { source }) => format!("Io({:?})", source.kind()),
         Err(FrameError::InvalidFrame { data }) => format!("InvalidFrame({})", hex(data)),
         Err(FrameError::FrameDataMismatch { data, expected, actual }) => format!("FrameDataMismatch({},{},{})", hex(data), expected, actual),
@@ -390,6 +391,21 @@ fn exhaustive_read(which: usize, rep: &mut Report) {
             }
         }
     }
+    // junk lines whose length is AROUND that of the longest frame (515 .. 530 bytes, terminator included — the longest
+    // frame's line has 523), then two good frames: the failing read takes that line and nothing of the next one
+    if which == 0 {
+        let good = refs::enc_crlf(0x0003, 0x04, &[0x07]);
+        for total in 515usize..=530 {
+            for (filler, term) in [(b'A', &b"\r\n"[..]), (b':', &b"\r\n"[..]), (b'0', &b"\n"[..]), (0xFF, &b"\r\n"[..])] {
+                let mut tape = vec![b':'];
+                tape.extend(std::iter::repeat(filler).take(total - 1 - term.len()));
+                tape.extend_from_slice(term);
+                tape.extend_from_slice(&good);
+                tape.extend_from_slice(&good);
+                run_read_case(&ReadCase { tape, boundaries: vec![], faults: vec![], reads: 4, label: "junk_line_about_as_long_as_the_longest_frame" }, rep);
+            }
+        }
+    }
     // exactly k undecodable lines of one kind in a row, then two good frames: each read is judged as ever
     if which == 0 {
         let good = refs::enc_crlf(0x0003, 0x04, &[0x07]);
@@ -467,6 +483,7 @@ fn run_write_case(c: &WriteCase, rep: &mut Report) {
         let f = Frame::new(Address(c.frame.0), MsgType(c.frame.1), Data::try_new(c.frame.2.clone()).expect("<=255"));
         f.write(&mut w).map_err(|e| match e {
             FrameError::Io { ref source } if std::error::Error::source(&e).map(|x| x.to_string()) != Some(source.to_string()) => format!("Other(Io error whose Error::source() is {:?})", std::error::Error::source(&e).map(|x| x.to_string())),
+            FrameError::Io { source } if !crate::doubles::payload_intact(&source) => format!("Other(an i/o error of kind {:?} that no longer carries what the stream put into it: {:?})", source.kind(), source.get_ref().map(|x| x.to_string())),
             FrameError::Io { source } => format!("Io({:?})", source.kind()),
             other => format!("Other({:?})", other),
         })
@@ -598,6 +615,7 @@ fn std_sinks(rep: &mut Report) {
                     };
                     (res.map_err(|e| match e {
                         FrameError::Io { ref source } if std::error::Error::source(&e).map(|x| x.to_string()) != Some(source.to_string()) => format!("Other(Io error whose Error::source() is {:?})", std::error::Error::source(&e).map(|x| x.to_string())),
+            FrameError::Io { source } if !crate::doubles::payload_intact(&source) => format!("Other(an i/o error of kind {:?} that no longer carries what the stream put into it: {:?})", source.kind(), source.get_ref().map(|x| x.to_string())),
             FrameError::Io { source } => format!("Io({:?})", source.kind()),
                         other => format!("Other({:?})", other),
                     }), held)
@@ -1156,6 +1174,7 @@ pub fn run(ctx: &Ctx) -> Outcome {
         floor("the same frame on consecutive lines; wrong terminators made of CR / blank / tab", report.get("lines/same_frame_as_previous_line") > 1000 && report.get("lines/doubled_cr") > 100 && report.get("lines/blank_near_terminator") > 100, report.get("lines/same_frame_as_previous_line")),
         floor("good frames after exactly k undecodable lines / k failing reads (k = 1..257)", report.get("read_cases/k_undecodable_lines_then_good_ones") == 40 && report.get("read_cases/k_failing_reads_then_good_ones") == 8, report.get("read_cases/k_undecodable_lines_then_good_ones")),
         floor("lines of 524 .. 70 000 bytes without a line feed, then good frames; noise in front of a frame on the same line", report.get("read_cases/overlong_line_then_good_frames") == 36 && report.get("lines/leading_noise") > 100, report.get("lines/leading_noise")),
+        floor("junk lines of 515 .. 530 bytes (around the longest frame's 523), then good frames", report.get("read_cases/junk_line_about_as_long_as_the_longest_frame") == 64, report.get("read_cases/junk_line_about_as_long_as_the_longest_frame")),
         floor("300 to 70 000 interrupted reads during one line", report.get("read_cases/thousands_of_interrupts_in_one_line") == 12, report.get("read_cases/thousands_of_interrupts_in_one_line")),
         floor("maximum-length lines read through 1..6 interrupted reads", report.get("read_cases/maximum_length_frames_interrupted") == 84, report.get("read_cases/maximum_length_frames_interrupted")),
         floor("70 000 lines through one reader and 70 000 frames into one sink", report.get("marathon_lines_read") == 70_000 && report.get("marathon_frames_written") == 70_000, format!("{} / {}", report.get("marathon_lines_read"), report.get("marathon_frames_written"))),
